@@ -66,6 +66,14 @@ pub struct SockCfg {
     /// The reduced scenario (2 downlinks, 1 agent source, 4 peer frames; only downlink 0 may detach
     /// early, stop only at the end) used for the higher deviation bounds.
     pub core: bool,
+    /// Two downlinks on the same (node, lane) of one socket plus one on another lane; every frame
+    /// of the peer is for the shared address; either sibling may detach at any point.
+    pub siblings: bool,
+}
+
+thread_local! {
+    /// set from the configuration when a world is built (peer_frames is also called for evidence)
+    static SIBLINGS: std::cell::Cell<bool> = const { std::cell::Cell::new(false) };
 }
 
 #[derive(Clone, Debug)]
@@ -76,6 +84,14 @@ enum PeerFrame {
 
 /// What the peer sends: (frame, addressee description) - see `expectations`.
 fn peer_frames(v: Variant, core: bool) -> Vec<PeerFrame> {
+    if v == Variant::Valid && core && SIBLINGS.with(|s| s.get()) {
+        return vec![
+            PeerFrame::Text("@event(node:\"/n\",lane:l) \"p0\""),
+            PeerFrame::Text("@event(node:\"/n\",lane:l) \"p1\""),
+            PeerFrame::Text("@event(node:\"/n\",lane:l2) \"p2\""),
+            PeerFrame::Text("@event(node:\"/n\",lane:l) \"p3\""),
+        ];
+    }
     let bad = match v {
         Variant::Valid => None,
         Variant::InvalidFrame => Some(PeerFrame::Text("@event(node:\"/n\",lane:l")),
@@ -508,6 +524,7 @@ impl World for SockWorld {
         let client = WebSocket::from_upgraded(config, client, Some(NoExt), BytesMut::new(), Role::Client);
         let remote = RemoteTask::new(REMOTE_ID, stop_rx, server, attach_rx, Some(find_tx), NonZeroUsize::new(8).unwrap(), Duration::from_secs(5));
         let shared = Rc::new(RefCell::new(Shared::default()));
+        SIBLINGS.with(|s| s.set(cfg.siblings));
         let frames = peer_frames(cfg.variant, cfg.core);
         let (mut ws_tx, mut ws_rx) = client.split().expect("split");
 
@@ -590,7 +607,9 @@ impl World for SockWorld {
             find_rx,
             stop_tx: Some(stop_tx),
             stopped: false,
-            downlinks: if cfg.core {
+            downlinks: if cfg.siblings {
+                vec![dl("/n", "l", vec!["d00"]), dl("/n", "l", vec!["d10"]), dl("/n", "l2", vec![])]
+            } else if cfg.core {
                 vec![dl("/n", "l", vec!["d00"]), dl("/n", "l2", vec!["d10"])]
             } else {
                 vec![dl("/n", "l", vec!["d00", "d01"]), dl("/n", "l2", vec!["d10"]), dl("/n2", "l", vec!["d20"])]
@@ -666,7 +685,7 @@ impl World for SockWorld {
         let idle = en.is_empty();
         let core = self.cfg.core;
         for (i, d) in self.downlinks.iter().enumerate() {
-            if d.attach_fired && !d.detached && (idle || !core || i == 0) {
+            if d.attach_fired && !d.detached && (idle || !core || i == 0 || (self.cfg.siblings && i == 1)) {
                 en.push(30 + i as u32);
             }
         }
@@ -860,8 +879,11 @@ impl World for SockWorld {
                 let have: Vec<usize> = got_idx.iter().take(upto).cloned().collect();
                 for (idx, m) in &mine {
                     if d.confirmed_at.map(|c| *idx >= c).unwrap_or(false) && !have.contains(idx) {
-                        // a body-changing defect is reported by the safety check above; here only loss
-                        if !d.received.iter().take(upto).any(|r| r.0 == m.0 && r.1 == m.1 && r.2 == m.2) {
+                        // a body-changing defect is reported by the safety check above; here only loss:
+                        // fewer messages of this kind and address were read than were sent after the attach
+                        let n_sent = mine.iter().filter(|(j, x)| d.confirmed_at.map(|c| *j >= c).unwrap_or(false) && x.0 == m.0 && x.1 == m.1 && x.2 == m.2).count();
+                        let n_read = d.received.iter().take(upto).filter(|r| r.0 == m.0 && r.1 == m.1 && r.2 == m.2).count();
+                        if n_read < n_sent {
                             v(
                                 format!("leg=socket law=envelope_reaches_subscriber endpoint=downlink kind={}", m.0),
                                 format!("frame #{} {:?} was sent after downlink {} was attached and had not been delivered at quiescence", idx, m, i),
@@ -981,7 +1003,7 @@ fn variant_from(s: &str) -> Option<Variant> {
 pub fn run(ctx: &Ctx) {
     if std::env::var("C11_SOCK_TRACE").is_ok() {
         for v in [Variant::Valid, Variant::InvalidFrame, Variant::BinaryFrame] {
-            let cfg = SockCfg { buf: std::env::var("C11_SOCK_BUF").ok().and_then(|b| b.parse().ok()).unwrap_or(64), variant: v, core: std::env::var("C11_SOCK_CORE").is_ok() };
+            let cfg = SockCfg { buf: std::env::var("C11_SOCK_BUF").ok().and_then(|b| b.parse().ok()).unwrap_or(64), variant: v, core: std::env::var("C11_SOCK_CORE").is_ok(), siblings: std::env::var("C11_SOCK_SIBLINGS").is_ok() };
             match run_one::<SockWorld>(&cfg, &[], true) {
                 Ok(rec) => {
                     eprintln!("--- canonical {:?}: {} steps", cfg, rec.choices.len());
@@ -998,7 +1020,8 @@ pub fn run(ctx: &Ctx) {
         }
     }
     // (bound, configurations) per tier
-    let c = |buf, variant, core| SockCfg { buf, variant, core };
+    let c = |buf, variant, core| SockCfg { buf, variant, core, siblings: false };
+    let sib = |buf| SockCfg { buf, variant: Variant::Valid, core: true, siblings: true };
     let grid: Vec<(SockCfg, u32)> = if ctx.quick() {
         vec![
             (c(64, Variant::Valid, false), 1),
@@ -1007,6 +1030,7 @@ pub fn run(ctx: &Ctx) {
             (c(64, Variant::BinaryFrame, false), 1),
             (c(64, Variant::Valid, true), 2),
             (c(64, Variant::InvalidFrame, true), 2),
+            (sib(64), 2),
         ]
     } else {
         vec![
@@ -1019,6 +1043,8 @@ pub fn run(ctx: &Ctx) {
             (c(64, Variant::InvalidFrame, true), 3),
             (c(64, Variant::BinaryFrame, true), 3),
             (c(64, Variant::Valid, true), 4),
+            (sib(64), 3),
+            (sib(4096), 3),
         ]
     };
     let leg_deadline = std::time::Instant::now() + std::time::Duration::from_secs_f64(ctx.tier.pick(25.0, 420.0));
@@ -1029,7 +1055,7 @@ pub fn run(ctx: &Ctx) {
         if !stats.machinery_errors.is_empty() {
             vcommon::machinery_failure(&format!("C11 socket leg: {}", stats.machinery_errors[0]));
         }
-        let name = format!("socket_{}_{}_buf{}_d{}", if cfg.core { "core" } else { "full" }, variant_name(cfg.variant), cfg.buf, bound);
+        let name = format!("socket_{}_{}_buf{}_d{}", if cfg.siblings { "siblings" } else if cfg.core { "core" } else { "full" }, variant_name(cfg.variant), cfg.buf, bound);
         for (sig, expl, choices) in &stats.violations {
             if sig.contains("MACHINERY") {
                 vcommon::machinery_failure(&format!("C11 socket leg: {} (choices {:?})", expl, choices));
@@ -1046,7 +1072,7 @@ pub fn run(ctx: &Ctx) {
             ctx.violation(
                 &name,
                 sig,
-                json!({"leg": "socket", "buf": cfg.buf, "variant": variant_name(cfg.variant), "core": cfg.core, "choices": choices, "schedule": labels, "explanation": expl,
+                json!({"leg": "socket", "buf": cfg.buf, "variant": variant_name(cfg.variant), "core": cfg.core, "siblings": cfg.siblings, "choices": choices, "schedule": labels, "explanation": expl,
                        "what": format!("RemoteTask over a duplex web socket: {}", expl)}),
             );
         }
@@ -1074,11 +1100,11 @@ pub fn replay(d: &J) -> Vec<(String, J)> {
         return out;
     };
     let choices: Vec<u8> = ch.iter().filter_map(|c| c.as_u64().map(|c| c as u8)).collect();
-    let cfg = SockCfg { buf: buf as usize, variant, core: d["core"].as_bool().unwrap_or(false) };
+    let cfg = SockCfg { buf: buf as usize, variant, core: d["core"].as_bool().unwrap_or(false), siblings: d["siblings"].as_bool().unwrap_or(false) };
     match run_one::<SockWorld>(&cfg, &choices, true) {
         Ok(rec) => {
             for (sig, expl) in rec.outcome.violations {
-                out.push((sig, json!({"leg": "socket", "buf": buf, "variant": variant_name(variant), "core": cfg.core, "choices": choices, "schedule": rec.labels, "explanation": expl})));
+                out.push((sig, json!({"leg": "socket", "buf": buf, "variant": variant_name(variant), "core": cfg.core, "siblings": cfg.siblings, "choices": choices, "schedule": rec.labels, "explanation": expl})));
             }
         }
         Err(e) => vcommon::machinery_failure(&format!("C11 socket replay: {}", e)),
